@@ -384,6 +384,7 @@ theorem runActs_mono {t : Rat} {x : Ctx} (acts : List Act) (hn : NonNeg acts) {s
     | pull r =>
       obtain ⟨p1, p2, p3⟩ := pull_frame (s.bumpPc x.rid) x.rid r
       exact ih' (h1.of_same p1 p2 p3)
+    | raise => exact h1.of_same rfl rfl rfl
 
 /-! ### Choosing the next task -/
 
@@ -600,6 +601,7 @@ theorem runActs_script (acts : List Act) (x : Ctx) (s : S) (i : Nat) :
     | seed n => simp only; rw [ih]; refine (hset _ _ _ ?_).trans (hb i); rfl
     | draw => simp only; rw [ih]; exact hb i
     | pull r => simp only; rw [ih, pull_script]; exact hb i
+    | raise => refine (hset _ _ _ ?_).trans (hb i); rfl
 
 theorem exec_script (s : S) (e : Entry) (i : Nat) : ((s.exec e).rts i).script = (s.rts i).script := by
   unfold S.exec
@@ -940,9 +942,12 @@ theorem runActs_exact {x : Ctx} (acts : List Act) {s : S} (h : ExactRun s x)
       · show ((s.bumpPc x.rid).rts x.rid).script = _; rw [hb_self]
       · show ((s.bumpPc x.rid).rts x.rid).pc = _; rw [hb_self]
     | seed n =>
-      refine cont _ ((hbump rfl).setRt x.rid _ rfl rfl rfl id id) ?_ ?_
+      have hg : ExactRun ((s.bumpPc x.rid).newGen n) x := (hbump rfl).same rfl rfl
+      refine cont _ (hg.setRt x.rid _ rfl rfl rfl id id) ?_ ?_
       · simp only [setRt_rts_same]; rw [hb_self]
       · simp only [setRt_rts_same]; rw [hb_self]
+    | raise =>
+      refine (ExactRun.setRt (hbump rfl) x.rid _ ?_ ?_ ?_ ?_ ?_).toExact <;> simp
     | setTempo i v =>
       simp only
       split
@@ -1154,6 +1159,7 @@ theorem runActs_trace_mono (acts : List Act) (x : Ctx) (s : S) (ev : Ev) (h : ev
     | seed n => exact ih _ hb
     | draw => exact ih _ (List.mem_cons_of_mem _ hb)
     | pull r => exact ih _ (pull_trace_mono _ _ _ _ hb)
+    | raise => exact hb
 
 /-! ### Every resume event ever logged carries the exact beat -/
 
@@ -1245,7 +1251,10 @@ theorem runActs_traceExact (acts : List Act) (x : Ctx) {s : S} (h : TraceExact s
     | log => exact ih' (hb.emit _ (by intros; simp))
     | send b => exact ih' (hb.emit _ (by intros; simp))
     | draw => exact ih' ((hb.emit _ (by intros; simp)).same rfl rfl)
-    | seed n => exact ih' (hb.setRt x.rid _ rfl (hb.noPaused x.rid) (fun hh => ⟨hh, rfl⟩))
+    | seed n =>
+      have hg : TraceExact ((s.bumpPc x.rid).newGen n) := hb.same rfl rfl
+      exact ih' (hg.setRt x.rid _ rfl (hb.noPaused x.rid) (fun hh => ⟨hh, rfl⟩))
+    | raise => exact hb.setRt x.rid _ rfl (by simp) (fun _ => ⟨by simp, rfl⟩)
     | spawn r c => exact ih' (hb.play _ _ _)
     | setTempo i v =>
       simp only; split
